@@ -5,7 +5,9 @@ from fractions import Fraction
 from . import core
 
 LABEL_ALPHABET = ["a", "b", "z", "0", "7", " ", '"', '""', "\n", "=", "[", "]", ":", "é", " ", " ", "\U0001d11e",
-                  "-", ".", "<", ">", "!", "\t", "'", "\\"]
+                  "-", ".", "<", ">", "!", "\t", "'", "\\",
+                  # text that a Unicode normalisation, a case fold or a white-space clean-up would change
+                  "e\u0301", "\u212b", "\u1100\u1161", "\ufb01", "\u200d", "\x0c", "\x85", "\u0130"]
 KEYWORDS = ['item [2]:', 'intervals [1]:', 'points [3]:', '"IntervalTier"', 'IntervalTier', '"TextTier"', 'text = "x"',
             'ooTextFile short', 'item [', 'xmin = 5', 'name = "q"', 'size = 3', '<exists>', 'class = "IntervalTier"',
             'mark = "m"', 'number = 1', 'intervals: size = 0', '! bang']
@@ -55,6 +57,28 @@ def rand_dtg(rng, tmax, ntiers=None, kw_share=0.0, names_unique=True, sliver=Non
                     x += rng.choice(sliver) if (sliver and rng.random() < 0.4) else rng.randint(1, max(1, tmax // 6))
                 if rng.random() < 0.15:
                     break
+            if sliver and ents and rng.random() < 0.45:
+                # slivers and sliver-wide gaps at the two ends of the tier, single and in chains
+                lab = lambda: rand_label(rng, 4, kw_share) or "s"
+                if rng.random() < 0.6:
+                    d = rng.choice(sliver)
+                    if ents[-1][1] == tmax and ents[-1][0] < tmax - d and rng.random() < 0.5:
+                        ents[-1][1] = tmax - d                      # the last interval stops a sliver short of the end
+                    elif ents[-1][1] <= tmax - d:
+                        x0 = tmax - d if rng.random() < 0.6 else ents[-1][1]
+                        if x0 + d <= tmax:
+                            ents.append([x0, x0 + d, lab()])        # a last interval that is a sliver
+                if rng.random() < 0.6:
+                    chain = [rng.choice(sliver) for _ in range(rng.randint(1, 3))]
+                    o = rng.choice([0, rng.choice(sliver)])
+                    if ents[0][0] >= o + sum(chain):
+                        if rng.random() < 0.5:
+                            o = ents[0][0] - sum(chain)             # the chain touches the first long interval
+                        pre = []
+                        for d in chain:
+                            pre.append([o, o + d, lab()])
+                            o += d
+                        ents = pre + ents
         else:
             for x in sorted(rng.sample(range(0, tmax + 1), rng.randint(0, min(5, tmax)))):
                 ents.append([x, rand_label(rng, 6, kw_share)])
@@ -62,6 +86,35 @@ def rand_dtg(rng, tmax, ntiers=None, kw_share=0.0, names_unique=True, sliver=Non
             ents = []                      # tiers without entries are legal and common (a fresh annotation layer)
         tiers.append({"isint": isint, "name": nm, "xmin": 0, "xmax": tmax, "entries": ents})
     return {"xmin": 0, "xmax": tmax, "tiers": tiers}
+
+
+def shift_dtg(g, base):
+    """the same textgrid with every time moved by base ticks (a span that does not start at 0)"""
+    def sh(e):
+        return [x + base for x in e[:-1]] + [e[-1]]
+    return {"xmin": g["xmin"] + base, "xmax": g["xmax"] + base,
+            "tiers": [dict(t, xmin=t["xmin"] + base, xmax=t["xmax"] + base, entries=[sh(e) for e in t["entries"]]) for t in g["tiers"]]}
+
+
+_SAVE_DIR = None
+
+
+def save_via(tg, fmt, blanks, mn, mx, thr):
+    """The text Textgrid.save writes (through the public wrapper, not the io function it wraps)."""
+    global _SAVE_DIR
+    import os
+    import tempfile
+    if _SAVE_DIR is None or not os.path.isdir(_SAVE_DIR):
+        _SAVE_DIR = tempfile.mkdtemp(prefix="verif-save.")
+        import atexit
+        import shutil
+        atexit.register(shutil.rmtree, _SAVE_DIR, True)
+    fn = os.path.join(_SAVE_DIR, "%d.out" % os.getpid())
+    if os.path.exists(fn):
+        os.remove(fn)
+    tg.save(fn, fmt, blanks, mn, mx, thr, "silence")
+    with open(fn, "r", encoding="utf-8", newline="") as fh:
+        return fh.read()
 
 
 def build_tg(g, tof):
